@@ -779,7 +779,7 @@ func (e *Exec) applyContract(s *State, con *Contract, args []Val, setRes func(*S
 		s.assume("%s", g)
 	}
 	if e.w.vacuity {
-		e.obls = append(e.obls, Oblig{Key: shortFunc(e.fn.String()) + "/vacuity@call#" + short, Kind: "vacuity", Func: e.fn.String(), Pre: append([]string{}, s.pc...), Goal: "false", Canary: true, Path: e.paths, Pos: e.posStr(token.NoPos), Desc: "assumptions after applying the contract of " + short + " must be satisfiable"})
+		e.obls = append(e.obls, Oblig{Key: shortFunc(e.fname()) + "/vacuity@call#" + short, Kind: "vacuity", Func: e.fname(), Pre: append([]string{}, s.pc...), Goal: "false", Canary: true, Path: e.paths, Pos: e.posStr(token.NoPos), Desc: "assumptions after applying the contract of " + short + " must be satisfiable"})
 	}
 }
 
